@@ -423,7 +423,7 @@ func strippedCopy(v ssa.Value, seen map[ssa.Value]bool, d int) *ssa.Call {
 func c19UserfuncMarks(c *Ctx) {
 	c.Rule("userfunc.marks: every function.Parameter that ext/userfunc builds for a function defined in configuration (fixed and variadic parameters) sets AllowMarked: the body is an HCL expression evaluated by this module, whose diagnostics become the text of the call's error (\"Call to function … failed: …\"); cty hands a parameter without AllowMarked the argument stripped of its marks, so those diagnostics would quote the content of a marked argument as if it were public")
 	n := 0
-	for _, fn := range c.P.pkgFuncs(c.Scope("ext/userfunc")...) {
+	for _, fn := range c.P.pkgFuncs("ext/userfunc") {
 		type lit struct {
 			pos     token.Pos
 			allowed bool
